@@ -41,7 +41,8 @@ def gen_program(g, ndim=None):
     R_phys = Fraction(r.choice([5, 10, 7, 3, 9, 13, 17, 4]))
     n = r.choice([0, 1, 4, 9])
 
-    def rows(count):
+    def rows(count, f=None):
+        f = fpos if f is None else f
         out = []
         for _ in range(count):
             m = r.random()
@@ -62,18 +63,18 @@ def gen_program(g, ndim=None):
                 off = [Fraction(r.randint(-30, 30)) for _ in range(ndim)]
             if not exact:
                 off = [o * Fraction(101, 100) + Fraction(1, 7) for o in off]
-            out.append([(o + c) / fpos for o, c in zip(off, org_phys)])
+            out.append([(o + c) / f for o, c in zip(off, org_phys)])
         return out
 
     ds = fresh()
     prog.append({"op": "ds_new", "dst": ds})
     mesh_rows = rows(n)
     layout = r.choice(["mesh+part", "mesh+sink_same", "mesh+sink_other", "part_only", "mesh_only", "nopos_first"])
-    def group(name, rws, with_pos=True, extra=2):
+    def group(name, rws, with_pos=True, extra=2, unit=None):
         gv = fresh()
         prog.append({"op": "dg_new", "dst": gv})
         if with_pos:
-            prog.append({"op": "dg_set", "g": gv, "key": "position", "v": vec(rws, upos)})
+            prog.append({"op": "dg_set", "g": gv, "key": "position", "v": vec(rws, unit or upos)})
         for i in range(extra):
             v = fresh()
             u, _ = g.unit(r.choice(["mass", "time", "dimensionless"]))
@@ -90,7 +91,9 @@ def gen_program(g, ndim=None):
     if layout != "part_only":
         group("mesh", mesh_rows)
     if layout in ("mesh+part", "part_only"):
-        group("part", rows(r.choice([0, 2, 5])))
+        # every group carries its own position unit (e.g. after a .to() on one group): the region is converted per group
+        upart = r.choice(lens) if r.random() < 0.7 else upos
+        group("part", rows(r.choice([0, 2, 5]), Fraction(g.ujson(upart)["f"])), unit=upart)
     if layout == "mesh+sink_same":
         group("sink", [[Fraction(0)] * ndim] * n, with_pos=False)
     if layout == "mesh+sink_other":
@@ -173,7 +176,7 @@ def run(ctx):
         dist[k] = dist.get(k, 0) + 1
     out.distribution = {"kind:layout:ndim:lane": dist}
     out.rule = ("datasets built by hand: mesh / part / sink groups with and without own positions (2-D and 3-D Vectors), extra Arrays and "
-                "Vectors, row counts 0..9, positions / origin / radius / sizes in different length units; rows placed exactly on the sphere "
+                "Vectors, row counts 0..9, positions (per group) / origin / radius / sizes in different length units; rows placed exactly on the sphere "
                 "(pythagorean offsets) and on the box faces in the exact lane, regions containing no / some / all rows, incompatible radius "
                 "units; result, input dataset and memory sharing observed. non-trivial = mesh has rows; distinct by program hash")
     return out
